@@ -219,6 +219,7 @@ func (ss *Package) buildOneofSchema(srcMsg protoreflect.MessageDescriptor, _ *ex
 
 	oneofSchema.Properties = properties
 
+	verifAt("setTo", oneofSchema.FullName())
 	return oneofSchema, nil
 }
 
@@ -252,6 +253,7 @@ func (ss *Package) buildObjectSchema(srcMsg protoreflect.MessageDescriptor, opts
 		objectSchema.AnyMember = opts.AnyMember
 	}
 
+	verifAt("setTo", objectSchema.FullName())
 	return objectSchema, nil
 }
 
